@@ -1,3 +1,4 @@
+#define _GNU_SOURCE
 /* Free-running lock driver (C01, C02): real threads hammer PMutex / PSpinLock / PRWLock objects,
  * every call / return and every critical-section access to a plain (non-atomic) data cell is
  * logged with the process-wide sequence number; TLC later searches a linearization (LockLin).
@@ -91,6 +92,65 @@ static void tryhold (void) {
 	do_call (16, 1, "wunlock");
 	pthread_join (h, NULL);
 }
+/* trylock racing trylock on a free lock: both threads leave a spin barrier together; the winner keeps the lock until the loser's call has returned
+ * (2 s watchdog -> TryBlocked: the loser was inside trylock all the time the lock was held) */
+static volatile int tr_round[2], tr_ret[2]; static int tr_rounds, tr_spin = 20000; static volatile int tr_stop;
+static int raw_try (void) { return kind[0] == 'm' ? p_mutex_trylock (mx[1]) : kind[0] == 's' ? p_spinlock_trylock (sp[1]) : p_rwlock_writer_trylock (rw[1]); }
+static void raw_unlock (void) { if (kind[0] == 'm') p_mutex_unlock (mx[1]); else if (kind[0] == 's') p_spinlock_unlock (sp[1]); else p_rwlock_writer_unlock (rw[1]); }
+static void *tryrace_thread (void *arg) {
+	int me = (int) (long) arg, other = 1 - me, r;
+	if (me == 0) vtm_open (base, 15);
+	for (r = 1; r <= tr_rounds && !tr_stop; r++) {
+		int got; double t0;
+		__atomic_store_n (&tr_round[me], r, __ATOMIC_SEQ_CST);
+		{ int sp_ = 0; while (__atomic_load_n (&tr_round[other], __ATOMIC_SEQ_CST) < r && !tr_stop) if (++sp_ > tr_spin) { sched_yield (); sp_ = 0; } }
+		got = raw_try ();            /* not logged: event numbers around the calls would keep them apart; only a blocked call becomes an event */
+		__atomic_store_n (&tr_ret[me], r, __ATOMIC_SEQ_CST);
+		if (got) {
+			t0 = now_s ();
+			{ int sp_ = 0; while (__atomic_load_n (&tr_ret[other], __ATOMIC_SEQ_CST) < r && now_s () - t0 < 2.0) if (++sp_ > tr_spin) { sched_yield (); sp_ = 0; } }
+			if (__atomic_load_n (&tr_ret[other], __ATOMIC_SEQ_CST) < r) { VTM ("\"e\":\"TryBlocked\",\"t\":%d,\"o\":1", 15 + other); tr_stop = 1; }      /* one such event decides the run */
+			raw_unlock ();
+		}
+		/* both wait for the round to be over before the next one */
+		{ int sp_ = 0; while (__atomic_load_n (&tr_ret[other], __ATOMIC_SEQ_CST) < r && !tr_stop) if (++sp_ > tr_spin) { sched_yield (); sp_ = 0; } }
+	}
+	if (me == 0) vtm_close ();
+	return NULL;
+}
+static void tryrace (int rounds) {
+	pthread_t h;
+	{ cpu_set_t all; int n = 1; if (sched_getaffinity (0, sizeof all, &all) == 0) n = CPU_COUNT (&all); if (n < 2) { tr_spin = 0; rounds = rounds / 200; } }      /* one core: yield at once, fewer rounds */
+	tr_rounds = rounds; tr_round[0] = tr_round[1] = tr_ret[0] = tr_ret[1] = 0;
+	pthread_create (&h, NULL, tryrace_thread, (void *) 0L);
+	tryrace_thread ((void *) 1L);
+	pthread_join (h, NULL);
+}
+/* "any number of readers": thread 16 enters as a reader through trylock and stays inside until thread 15 has been inside as a reader too (once
+ * through the blocking call, once through trylock); if thread 15 has not got in after 3 s the readers are not shared (ReadBlocked event) */
+static void *share_helper (void *arg) {
+	(void) arg;
+	vtm_open (base, 15);
+	while (__atomic_load_n (&th_flag, __ATOMIC_SEQ_CST) < 1) sched_yield ();
+	if (do_call (15, 1, "rlock")) do_call (15, 1, "runlock");
+	if (do_call (15, 1, "rtry")) do_call (15, 1, "runlock");
+	__atomic_store_n (&th_flag, 2, __ATOMIC_SEQ_CST);
+	vtm_close ();
+	return NULL;
+}
+static void sharehold (void) {
+	pthread_t h; double t0; int got;
+	th_flag = 0;
+	pthread_create (&h, NULL, share_helper, NULL);
+	got = do_call (16, 1, "rtry");
+	if (!got) got = do_call (16, 1, "rlock");
+	__atomic_store_n (&th_flag, 1, __ATOMIC_SEQ_CST);
+	t0 = now_s ();
+	while (__atomic_load_n (&th_flag, __ATOMIC_SEQ_CST) < 2 && now_s () - t0 < 3.0) sched_yield ();
+	if (__atomic_load_n (&th_flag, __ATOMIC_SEQ_CST) < 2) VTM ("\"e\":\"ReadBlocked\",\"t\":15,\"o\":1");
+	if (got) do_call (16, 1, "runlock");
+	pthread_join (h, NULL);
+}
 int main (int argc, char **argv) {
 	int i, ep; pthread_t th[32];
 	if (argc < 8) return 2;
@@ -119,7 +179,7 @@ int main (int argc, char **argv) {
 		vtm_barrier ();
 	}
 	for (i = 1; i <= nth; i++) pthread_join (th[i], NULL);
-	if (nth <= 14) tryhold ();
+	if (nth <= 14) { tryhold (); tryrace (100000); if (kind[0] == 'r') sharehold (); }
 	VTM ("\"e\":\"Epoch\"");
 	for (i = 1; i <= nobj; i++) { if (mx[i]) p_mutex_free (mx[i]); if (sp[i]) p_spinlock_free (sp[i]); if (rw[i]) p_rwlock_free (rw[i]); }
 	vtm_close ();
